@@ -542,11 +542,14 @@ func genC18(rt *rapid.T) *c18Case {
 
 func TestC18(t *testing.T) {
 	rec := NewRecorder("C18", "TestC18")
+	w := StartSpinWatchAfter("C18", 20)
+	defer w.Stop()
 	rapid.Check(t, func(rt *rapid.T) {
 		c := genC18(rt)
 		o := &Outcome{}
 		var obs *c18Obs
 		rec.Journal(c)
+		w.Case(c)
 		rapid.SyncTest(rt, func(rt *rapid.T) { obs = runC18(c) })
 		judgeC18(c, obs, o)
 		rec.Check(rt, c, o)
